@@ -802,7 +802,10 @@ impl Gen<'_> {
 
 fn gen_history(rng: &mut Rng, clean: bool, big: bool, maxops: u64) -> Vec<String> {
     let nb = rng.range(1, 3) as usize;
-    let buckets: Vec<String> = ["bka", "bkb", "bkc"][..nb].iter().map(|s| (*s).to_owned()).collect();
+    // half of the histories use bucket names one of which is a prefix of another (at a 3-byte boundary, where unpadded
+    // base64 names of side files share a prefix too): operations on one bucket must not reach the other's objects or side files
+    let names: [&str; 3] = if rng.chance(1, 2) { ["bka", "bkb", "bkc"] } else { ["bka", "bka-two", "bkatwo"] };
+    let buckets: Vec<String> = names[..nb].iter().map(|s| (*s).to_owned()).collect();
     let mut pool: Vec<&str> = POOL.to_vec();
     let mut keys: Vec<String> = Vec::new();
     let nk = rng.range(3, 6);
